@@ -255,3 +255,8 @@ func TimersRacy(b bool) {}
 // executor only (natively no-ops: a goroutine cannot be killed from outside).
 func SetProcess(n int)  {}
 func KillProcess(n int) {}
+
+// RandBudget(k): under the symbolic executor only the first k math/rand draws
+// of a path are path decisions, the remaining ones a fixed sequence. Natively
+// a no-op (the real generator draws).
+func RandBudget(k int) {}
